@@ -35,7 +35,7 @@ def run(ctx):
     ctx.not_decided = 'ordinal arithmetic of cut points, tie-breaks between checkpoints, agreement of the cache and truth "already checkpointed" answers, two schedulers racing between plan and spawn (schedule level).'
     ctx.rule('C09.1', 'job bracket: in compaction_auto_run_spawned_job_v1 every return reachable after the summariser closure ran passes append_job_ended; the returns before it are I/O-fault exits (replay error / empty stream) and are listed.')
     ctx.rule('C09.2', 'planned vs actual: in the summariser closure the summary write and the checkpoint append are reachable only through the "equal" edges of the comparisons of the resolved message (seq, id) with the planned (to_seq, to_message_id).')
-    ctx.rule('C09.3', 'hash-order-free rendering: in compaction_auto_summary every iteration over a HashMap / HashSet is collected into a Vec that is sorted by a comparator with a tie-break (Ordering::then) before use.')
+    ctx.rule('C09.3', 'hash-order-free rendering: in compaction_auto_summary every iteration over a HashMap / HashSet is collected into a Vec that is sorted by a comparator with a tie-break (Ordering::then) before anything else reads, selects from or truncates it.')
     ctx.rule('C09.4', 'shares C02.5 (noop / dry-run append nothing) and C05.2 (summary written before the checkpoint frame).')
 
     # ---------------------------------------------------------------- C09.1
@@ -135,6 +135,25 @@ def run(ctx):
                         sorted_ok = True
                     elif cf is not None:
                         why = 'the comparator of `%s` has no tie-break: equal keys keep RandomState order' % g.lname(v)
+            # the total-order sort must be the first thing that looks at the collected Vec: anything that
+            # selects, truncates or reads elements before it still sees RandomState order
+            if v is not None and sorted_ok:
+                good_sorts = []
+                for so in g.calls(r'slice::<impl \[T\]>::(sort_by|sort_unstable_by|sort_by_key|sort|sort_unstable)$'):
+                    if g.root_local(so.args[0], through_calls=(r'::deref_mut$',)) == v and g.dom(s.bb, so.bb):
+                        good_sorts.append(so)
+                DER = (r'::deref_mut$', r'::deref$', r'::as_mut_slice$', r'::as_slice$', r'::as_mut$', r'::as_ref$')
+                for u in g.sites():
+                    if u.bb == s.bb or any(u.bb == so.bb for so in good_sorts) or not g.can_reach(s.bb, u.bb):
+                        continue
+                    if re.search(r'::(deref_mut|deref|as_mut_slice|as_slice|as_mut|as_ref|len|is_empty|capacity|reserve|drop)$', u.callee) or u.name == 'drop':
+                        continue
+                    if not any(g.root_local(a, through_calls=DER) == v for a in u.args):
+                        continue
+                    if not any(g.dom(so.bb, u.bb) for so in good_sorts):
+                        sorted_ok = False
+                        why = '`%s` is used by %s (line %d) BEFORE the tie-breaking sort: which elements survive depends on RandomState order' % (g.lname(v), u.name, u.line)
+                        break
             ctx.ob('C09.3', g, 'hash-iteration-sorted:' + (g.lname(v) if v is not None else '?'), sorted_ok,
                    'hash iteration (%s) %s' % (s.name, 'is collected and sorted with a tie-break before use' if sorted_ok else why), line=s.line)
     ctx.floor('C09.3', 'hash iterations in compaction_auto_summary', n, 2)
